@@ -157,8 +157,11 @@ Theorem interest_kept_while_requestable : fix_pipe_counts_valid = true ->
 Proof. exact ProofsLive.interest_kept_while_requestable. Qed.
 Print Assumptions interest_kept_while_requestable.
 
+(* repairs (A), (C), (D) are in the current sources. Repair (E) (pipe counts only valid transfers) was committed and
+   reverted again (a2b5039: it let a new request queue behind a stale cancelled one): the (E) theorems stay conditional
+   on fix_pipe_counts_valid and class no-completion-cancelled-pipe is a listed finding. *)
 Theorem fixes_present_now :
-  fix_update_interested_queues = true /\ fix_have_listed_raises = true /\ choke_checks_stalled = true /\ fix_pipe_counts_valid = true.
+  fix_update_interested_queues = true /\ fix_have_listed_raises = true /\ choke_checks_stalled = true.
 Proof. exact ProofsLive.fixes_present_now. Qed.
 Print Assumptions fixes_present_now.
 
